@@ -21,7 +21,7 @@ LEVEL = "exploration"
 OBJ_CLASSES = ["Cuboid", "Cylinder", "Sphere", "Tetrahedron", "TriangularMesh", "Triangle", "Circle", "Polyline",
                "Dipole", "Sensor", "Collection", "CustomSource", "CylinderSegment"]
 OBJ_NOTATIONS = ["magic_update", "nested_update", "attr", "assign_dict", "assign_magic_dict", "mixed_update",
-                 "magic_then_dict", "attr_dict", "str_shortcut", "partial_magic"]
+                 "magic_then_dict", "attr_dict", "str_shortcut", "partial_magic", "assign_style_object"]
 CTOR_NOTATIONS = ["ctor_magic", "ctor_dict", "ctor_mixed"]
 DEF_NOTATIONS = ["fam_update", "style_update_nested", "style_update_magic", "attr", "display_update",
                  "fam_mixed_update", "fam_attr_dict", "fam_assign_dict", "defaults_update_nested",
@@ -70,7 +70,7 @@ def assign_sub_dicts(target, items):
     """attribute assignment of nested dictionaries one level below `target` (style.path = {...})"""
     for top, val in nest_items(items).items():
         setattr(target, top, val)
-SKIP_RESOLVE = ("model3d_", "label")
+SKIP_RESOLVE = ("model3d_data", "label")
 TM_KW = {"vertices": [[0, 0, 0], [1, 0, 0], [0, 1, 0], [0, 0, 1]], "faces": [[0, 1, 2], [0, 1, 3], [0, 2, 3], [1, 2, 3]],
          "polarization": [0, 0, 1]}
 
@@ -268,6 +268,9 @@ class C20Session(Session):
                         continue
                     want = M.effective(i, leaf, show_kw)
                     got = st.get(leaf, "<missing>")
+                    if leaf not in show_kw and M.holds_class_default(i, leaf) and \
+                            M.default_for(M.cls[i], leaf) not in (None, M.S[i][leaf]):
+                        self.probe("class_construction_value_shadows_a_changed_default")
                     if got != want:
                         src = ("show_kwarg" if leaf in show_kw else "object" if M.S[i].get(leaf) is not None
                                else "defaults")
@@ -356,6 +359,18 @@ class C20Session(Session):
             if d != keep:
                 raise Violation("caller_dict_mutated", "style.update(dict) changed the caller's dict", op="obj_set",
                                 notation=notation)
+        elif notation == "assign_style_object":
+            # a style object of the right class: its values are taken over (not the object itself)
+            tmp = o.style.copy()
+            tmp.update(**{leaf: own(v, leaf) for leaf, v in items})
+            o.style = tmp
+            if o.style is tmp:
+                raise Violation("style_object_kept_by_reference", "obj.style = <style object> kept the caller's object",
+                                op="obj_set", notation=notation)
+            for leaf, v in items:  # the caller goes on using its object
+                others = [x for x in sm.VALID[sm.kind_of(leaf)] if sm.stored(leaf, x) != sm.stored(leaf, v)]
+                if others:
+                    tmp.update(**{leaf: own(others[0], leaf)})
         elif notation == "magic_then_dict":
             o.style.update(**magic_then_dict_kwargs(items))
         elif notation == "attr_dict":
@@ -487,6 +502,16 @@ class C20Session(Session):
                 out = self._guard(lambda: self._write_obj(o, items, op["notation"]))
             elif op["op"] == "def_set":
                 out = self._guard(lambda: self._write_default(op["fam"], items, op["notation"]))
+            elif op["op"] == "new_obj" and kind == "style_object":
+                # the style *object* of another pool object given as `style`, together with style_ keywords:
+                # accepted or rejected - the donor must stay as it is
+                donor = self.world[var["donor"]]
+
+                def ctor():
+                    kw = dict(TM_KW) if op["cls"] == "TriangularMesh" else {}
+                    kw.update({"style_" + leaf: own(v, leaf) for leaf, v in items})
+                    cls_of(op["cls"])(style=donor.style, **kw).style  # noqa: B018
+                out = self._guard(ctor)
             elif op["op"] == "new_obj":
                 out = self._guard(lambda: self._construct(op["cls"], items, op["notation"]))
             elif op["op"] == "disp_set":
@@ -498,6 +523,13 @@ class C20Session(Session):
             self.log.add("inv", self.step, kind, op.get("notation"), out, digest(canon(after))[:16])
             self.transition(op["op"], op.get("notation"), kind, out.split(":")[0], var.get("leafkind"))
             sig = {"op": op["op"], "notation": op.get("notation"), "fault": kind}
+            if kind == "style_object":
+                self.probe("style_object_given_to_constructor")
+                if after != before:
+                    path = _first_state_diff(before, after)
+                    raise Violation("rejected_update_changed_state", f"{op['cls']}(style=<style object of object "
+                                    f"{var['donor']}>, style_...) [{out}] changed {path}", leaf=_sigleaf(path), **sig)
+                continue
             if out == "ok":
                 raise Violation("invalid_accepted", f"{op['op']} via {op.get('notation')} accepted {kind} "
                                 f"{items!r}", leaf=_sigleaf(items[-1][0]), **sig)
@@ -616,9 +648,29 @@ class C20Session(Session):
                 self.probe("reset_after_defaults_changed")
         elif k == "add_trace":
             i = op["o"] % len(w.objs)
-            out = self._guard(lambda: w.objs[i].style.model3d.add_trace(
-                backend="generic", constructor="Scatter3d",
-                kwargs={"x": [0, op["x"]], "y": [0, 1], "z": [0, 0], "mode": "lines"}))
+            if op.get("instance"):
+                # one Trace3d *object* of the caller given to two objects (three ways): later edits through one
+                # object must not show on the other
+                from magpylib.graphics import Trace3d
+
+                def give():
+                    t = Trace3d(backend="generic", constructor="Scatter3d",
+                                kwargs={"x": [0, op["x"]], "y": [0, 1], "z": [0, 0], "mode": "lines"})
+                    for o in (w.objs[i], w.objs[op["also"] % len(w.objs)]):
+                        how = op["instance"]
+                        if how == "add_trace":
+                            o.style.model3d.add_trace(t)
+                        elif how == "data":
+                            o.style.model3d.data = list(o.style.model3d.data) + [t]
+                        else:
+                            o.style = {"model3d": {"data": list(o.style.model3d.data) + [t]}}
+                out = self._guard(give)
+                self.probe("trace_object_given_to_two_objects")
+                self.traces.pop(op["also"] % len(w.objs), None)  # addressed as well
+            else:
+                out = self._guard(lambda: w.objs[i].style.model3d.add_trace(
+                    backend="generic", constructor="Scatter3d",
+                    kwargs={"x": [0, op["x"]], "y": [0, 1], "z": [0, 0], "mode": "lines"}))
         elif k == "trace_edit":
             i = op["o"] % len(w.objs)
             data = w.objs[i].style.model3d.data
@@ -912,7 +964,8 @@ class Sim:
             val = rng.choice(sm.VALID[sm.kind_of(leaf)])
             if sm.kind_of(leaf) == "color" and rng.random() < cfg.get("p_colorform", 0.0):
                 val = rng.choice(sm.COLOR_FORMS)[0]  # int tuple, float tuple, short name, upper-case hex, rgb()
-            if none_ok and leaf != "model3d_showdefault" and rng.random() < 0.12:  # showdefault is a strict bool
+            # (showdefault is a strict bool; the deprecated alias magnetization.size ignores None by design)
+            if none_ok and leaf != "model3d_showdefault" and not sm.is_alias(leaf) and rng.random() < 0.12:
                 val = None  # un-setting a leaf: the next layer shows through again
             items.append([leaf, val])
         # the deprecated alias and its target, written in either order across steps
@@ -980,6 +1033,9 @@ class Sim:
                       "how": rng.choice(["show", "scale", "kwargs", "update"]), "value": rng.randint(2, 9)}
             else:
                 op = {"op": "add_trace", "o": rng.randrange(n), "x": rng.randint(1, 5)}
+                if n > 1 and rng.random() < 0.4:
+                    op["instance"] = rng.choice(["add_trace", "data", "assign_dict"])
+                    op["also"] = rng.choice([j for j in range(n) if j != op["o"]])
             op["probe_kw"] = self._probe_kw(rng, cfg, sess)
             return op
         if rng.random() < 0.03:
@@ -1030,6 +1086,9 @@ class Sim:
                 op["then_copy"] = True
             if cfg["invalid"]:
                 op["invalid"] = [v for v in self._invalid(rng, items, self._leaves(fresh)) if v["kind"] != "partial"]
+                if rng.random() < 0.3:
+                    op["invalid"].append({"kind": "style_object", "donor": rng.randrange(n),
+                                          "items": [it for it in items if not sm.is_alias(it[0])][:2]})
         elif kind == "def_set":
             fam = rng.choice(sm.DEFAULT_FAMILIES)
             fl = [k[len(fam) + 1:] for k in M.D if k.startswith(fam + "_")]
